@@ -179,3 +179,10 @@ Proof.
   split; [vm_compute; reflexivity|].
   vm_compute; reflexivity.
 Qed.
+
+(* the Write entry point never fails internally either (same single exception: an out-of-range year) *)
+Theorem C01_write_entry_total : forall simple hp fuel st v s,
+  heap_closed hp = true -> ptrs_ok hp v = true ->
+  enc_write simple hp fuel st v = EPanic s -> s = 1%N.
+Proof. exact enc_write_total. Qed.
+Print Assumptions C01_write_entry_total.
